@@ -326,15 +326,24 @@ func init() {
 		if hasOpaque(p) {
 			panic(inconclusive{"HasPrefix with opaque prefix"})
 		}
-		// only the first len(p) pieces matter; they must be plain bytes
-		if len(s) < len(p) {
-			if hasOpaque(s) {
+		// compare the plain bytes in front of the first opaque piece: a
+		// mismatch there decides the answer whatever the opaque piece holds
+		k := 0
+		for k < len(s) && k < len(p) && s[k].X == nil {
+			k++
+		}
+		if k < len(p) {
+			r := bytesEq(s[:k], p[:k])
+			if r.T == nil && !r.C {
+				return r
+			}
+			if k < len(s) || hasOpaque(s) {
+				if r.T != nil && !e.decide(r) {
+					return Bool{C: false}
+				}
 				panic(inconclusive{"HasPrefix on opaque string"})
 			}
 			return Bool{C: false}
-		}
-		if hasOpaque(s[:len(p)]) {
-			panic(inconclusive{"HasPrefix on opaque string"})
 		}
 		return bytesEq(s[:len(p)], p)
 	}
